@@ -40,6 +40,7 @@ func runC19(c *report.Ctx) {
 	checkProcessMap(c)
 	checkKillExitedFirst(c)
 	checkFreshExecRequestPerProcess(c)
+	checkStartedMeansWatched(c)
 }
 
 func checkSupervisorExec(c *report.Ctx) {
